@@ -25,7 +25,7 @@ func init() {
 	register("C02", &propDef{
 		Title:           "Pack followed by Unpack reproduces the source tree",
 		ConfigSensitive: true,
-		Rules:           []func(*Checker){ruleC02Kinds, ruleMaterialise("C02.materialise"), ruleRestore("C02.restore"), ruleC02Fields, ruleMeta("C02.meta"), ruleC02Omit, ruleC04Accept2("C02.links"), aliasRule(ruleC05Link, "C05.link", "C02.linkkept", 2)},
+		Rules:           []func(*Checker){ruleC02Kinds, ruleMaterialise("C02.materialise"), ruleRestore("C02.restore"), ruleC02Fields, ruleMeta("C02.meta"), ruleC02Omit, ruleC04Accept2("C02.links"), aliasRule(ruleC05Link, "C05.link", "C02.linkkept", 2), ruleC02LinkTarget},
 		NotDecided: []string{
 			"round-trip equality itself: tar rounding of mtimes, PAX name handling, Perm() arithmetic, content bytes",
 			"link-target equivalence under filepath.ToSlash",
@@ -951,4 +951,169 @@ func ascendingIndex(idx ssa.Value) bool {
 		}
 	}
 	return false
+}
+
+// ---------- C02.linktarget ----------
+
+// pathTransforms walks the data path of a single string value back to its
+// leaves and names every operation on the way that can change its content
+// (library path functions, concatenation, slicing) except the allowed calls.
+func (p *Prog) pathTransforms(v ssa.Value, allowed map[string]bool) (leaves []Leaf, transforms []string) {
+	seen := map[ssa.Value]bool{}
+	var walk func(v ssa.Value)
+	walk = func(v ssa.Value) {
+		v = p.canonX(v)
+		if v == nil || seen[v] {
+			return
+		}
+		seen[v] = true
+		switch x := v.(type) {
+		case *ssa.Phi:
+			for _, e := range x.Edges {
+				walk(e)
+			}
+		case *ssa.Call:
+			o := calleeObj(x)
+			name := ""
+			if o != nil {
+				name = fullName(o)
+			}
+			if allowed[name] && len(x.Call.Args) > 0 {
+				walk(x.Call.Args[0])
+				return
+			}
+			if idxs, ok := transferFuncs[name]; ok {
+				transforms = append(transforms, shortCallee(name))
+				if idxs == nil {
+					for _, a := range x.Call.Args {
+						walk(a)
+					}
+				} else {
+					for _, i := range idxs {
+						if i < len(x.Call.Args) {
+							walk(x.Call.Args[i])
+						}
+					}
+				}
+				return
+			}
+			leaves = append(leaves, Leaf{Kind: "call", V: x, Callee: o})
+		case *ssa.Extract:
+			if cl, ok := x.Tuple.(*ssa.Call); ok {
+				leaves = append(leaves, Leaf{Kind: "call", V: x, Callee: calleeObj(cl)})
+				return
+			}
+			leaves = append(leaves, Leaf{Kind: "other", V: x})
+		case *ssa.BinOp:
+			transforms = append(transforms, "concatenation")
+			walk(x.X)
+			walk(x.Y)
+		case *ssa.Slice:
+			transforms = append(transforms, "slicing")
+			walk(x.X)
+		case *ssa.Convert:
+			walk(x.X)
+		case *ssa.ChangeType:
+			walk(x.X)
+		case *ssa.Field:
+			leaves = append(leaves, Leaf{Kind: "field", V: x, Field: fieldOf(x), Base: x.X})
+		case *ssa.UnOp:
+			if x.Op != token.MUL {
+				walk(x.X)
+				return
+			}
+			switch a := x.X.(type) {
+			case *ssa.Alloc:
+				ws := cellWrites(a)
+				if len(ws) == 0 {
+					leaves = append(leaves, Leaf{Kind: "zero", V: x})
+				}
+				for _, st := range ws {
+					walk(st.Val)
+				}
+			case *ssa.FieldAddr:
+				leaves = append(leaves, Leaf{Kind: "field", V: x, Field: fieldOf(a), Base: a.X})
+			case *ssa.FreeVar:
+				if al, ok := rootCell(a).(*ssa.Alloc); ok {
+					for _, st := range cellWrites(al) {
+						walk(st.Val)
+					}
+					return
+				}
+				leaves = append(leaves, Leaf{Kind: "other", V: x})
+			default:
+				leaves = append(leaves, Leaf{Kind: "other", V: x})
+			}
+		case *ssa.Const:
+			leaves = append(leaves, Leaf{Kind: "const", V: x})
+		case *ssa.Parameter:
+			leaves = append(leaves, Leaf{Kind: "param", V: x})
+		default:
+			leaves = append(leaves, Leaf{Kind: "other", V: x})
+		}
+	}
+	walk(v)
+	return
+}
+
+func ruleC02LinkTarget(c *Checker) {
+	const R = "C02.linktarget"
+	c.rule(R, "A link's target travels through the archive as it is: in Pack the Linkname stored in a symlink header is the os.Readlink result of the entry, changed at most by filepath.ToSlash; in Unpack the target handed to os.Symlink is the header's Linkname itself, changed at most by filepath.FromSlash — no Clean/Join/Abs/Rel, concatenation or slicing on the way (filepath.Clean collapses 'a/..' textually, which is a different target when 'a' is a link).", 2)
+	p := c.P
+	u := getUnpackCtx(c, R)
+	if u != nil {
+		n := 0
+		for _, s := range fsSinkSites(u.ReachL) {
+			if s.Sink.Class != "symlink" {
+				continue
+			}
+			n++
+			ls, ts := p.pathTransforms(s.Call.Common().Args[0], map[string]bool{"path/filepath.FromSlash": true})
+			ok := len(ts) == 0 && len(ls) > 0
+			why := ""
+			if len(ts) > 0 {
+				why = "it passes through " + strings.Join(uniq(ts), ", ")
+			}
+			for _, l := range ls {
+				if !(l.Kind == "field" && l.Field != nil && l.Field.Name() == "Linkname") {
+					ok = false
+					why += " it comes from " + leafDesc(p, l)
+				}
+			}
+			c.check(ok, R, p.FuncName(s.Fn), "os.Symlink target = header.Linkname", p.Pos(s.Call.Pos()), "the link is created with the recorded target as it is", "the target of the link created is not the recorded Linkname as it is ("+strings.TrimSpace(why)+"): e.g. l -> a/../y with a -> real/deep is unpacked as l -> y, which resolves to a different file")
+		}
+		c.check(n > 0, R, p.FuncName(u.Unpack), "creates links", p.Pos(u.Unpack.Pos()), fmt.Sprintf("%d os.Symlink call(s)", n), "Unpack no longer creates symlinks")
+	}
+	pc := getPackCtx(c, R)
+	if pc == nil {
+		return
+	}
+	n := 0
+	for _, w := range pc.Walks {
+		eachInstr(w.Fn, func(in ssa.Instruction) {
+			st, ok := in.(*ssa.Store)
+			if !ok {
+				return
+			}
+			fa, ok := st.Addr.(*ssa.FieldAddr)
+			if !ok || !isHeaderType(fa.X.Type()) || fieldOf(fa).Name() != "Linkname" {
+				return
+			}
+			n++
+			ls, ts := p.pathTransforms(st.Val, map[string]bool{"path/filepath.ToSlash": true})
+			ok2 := len(ts) == 0 && len(ls) > 0
+			why := ""
+			if len(ts) > 0 {
+				why = "it passes through " + strings.Join(uniq(ts), ", ")
+			}
+			for _, l := range ls {
+				if !(l.Kind == "call" && l.Callee != nil && isFunc(l.Callee, "os", "Readlink")) {
+					ok2 = false
+					why += " it comes from " + leafDesc(p, l)
+				}
+			}
+			c.check(ok2, R, p.FuncName(w.Fn), "header.Linkname = Readlink(entry)", p.Pos(st.Pos()), "the recorded target is the link's own target (ToSlash at most)", "the Linkname recorded is not the link's target as read ("+strings.TrimSpace(why)+")")
+		})
+	}
+	c.check(n > 0, R, "-", "records link targets", "-", fmt.Sprintf("%d Linkname store(s)", n), "Pack no longer records link targets")
 }
